@@ -63,8 +63,11 @@ func VH_read_v2_message_any_bytes() {
 	if n > 0 {
 		if long {
 			vAssume(in[0] == 0)
+			// version / addr / addrv2 carry net.IP values, which are outside the encoder (as in the decoder harness)
+			vAssume(n < 3 || !((in[1] == 'v' && in[2] == 'e') || (in[1] == 'a' && in[2] == 'd')))
 		} else {
 			vAssume(in[0] != 0) // one-byte message id (ids without a message type are rejected as unknown commands)
+			vAssume(in[0] != 1 && in[0] != 28) // addr, addrv2: see above
 		}
 	}
 	vAllocBound(4 * MaxMessagePayload)
